@@ -87,9 +87,20 @@ def generate(ctx):
                 k = rng.choice([2, 3, 3, 4])
                 base_aligned = rng.sample(aligned_pool, rng.randint(2, 5))
                 collide = False
+            # leading_empties: the first two or three inputs have nothing on the aligned axis; whatever is accumulated
+            # from them is empty, and the labels of the later inputs must still arrive
+            lead_empty = 0
+            if not vstack_focus and rng.random() < 0.06:
+                k = rng.choice([3, 4])
+                lead_empty = rng.choice([2, 2, 3])
+                ctx.tally('workload', 'concat_leading_empties')
             for i in range(k):
                 rel = 'identical' if vstack_focus else rng.choice(['identical', 'identical', 'permuted', 'overlap', 'disjoint'])
-                if rel == 'identical':
+                if i < lead_empty:
+                    rel = 'empty'
+                if rel == 'empty':
+                    al = []
+                elif rel == 'identical':
                     al = list(base_aligned)
                 elif rel == 'permuted':
                     al = list(base_aligned)
@@ -144,14 +155,44 @@ def generate(ctx):
                 case['keys'] = rng.sample(['K1', 'K2', 'K3', 'K4', 'K5'], k)
         elif op == 'frame_overlay':
             k = max(1, k)
+            lead_empty_o = 0
+            if rng.random() < 0.06:
+                k, lead_empty_o = rng.choice([3, 4]), 2
+                ctx.tally('workload', 'overlay_leading_empties')
             base_r = rng.sample(_ROWS, rng.randint(1, 4))
             base_c = rng.sample(_COLS, rng.randint(1, 3))
             dts = {c: rng.choice(['float64', 'object', 'float64', '<U5', 'int64', 'M8[D]']) for c in _COLS}
             frames = []
+            aligned_focus = rng.random() < 0.3
+            if aligned_focus:
+                # every input already carries the union labels in the same order, so no reindex rebuilds the blocks: the
+                # fill walks the first input's own block layout (multi-column blocks without a missing cell beside blocks
+                # with some), with a row count that differs from the block widths
+                ctx.tally('workload', 'overlay_aligned_blocks')
+                k = rng.choice([2, 2, 3])
+                base_r = rng.sample(_ROWS, rng.choice([1, 2, 4, 5]))
+                base_c = rng.sample(_COLS, rng.randint(3, min(6, len(_COLS))))
+                run_dts = []
+                while len(run_dts) < len(base_c):
+                    run_dts.extend([rng.choice(['int64', 'float64', 'float64', 'bool', 'object'])] * rng.choice([1, 2, 3]))
+                run_dts = run_dts[:len(base_c)]
             for i in range(k):
+                if aligned_focus:
+                    fd = _frame_desc(rng, base_r, base_c, run_dts)
+                    if i == 0:
+                        # NaN-free and NaN-rich columns side by side
+                        for j, dt in enumerate(run_dts):
+                            if dt == 'float64':
+                                dense = rng.random() < 0.4
+                                for r in fd['cells']:
+                                    r[j] = 1.5 if dense else (V.NAN if rng.random() < 0.6 else r[j])
+                    frames.append(fd)
+                    continue
                 rr = rng.sample(base_r, rng.randint(1, len(base_r))) + rng.sample([x for x in _ROWS if x not in base_r], rng.randint(0, 1))
                 cc = rng.sample(base_c, rng.randint(1, len(base_c))) + rng.sample([x for x in _COLS if x not in base_c], rng.randint(0, 1))
                 rng.shuffle(rr)
+                if i < lead_empty_o:
+                    rr = []
                 frames.append(_frame_desc(rng, rr, cc, [dts[c] for c in cc]))
             case['frames'] = frames
             case['union'] = rng.random() < 0.7
@@ -160,9 +201,15 @@ def generate(ctx):
             base = rng.sample(_ROWS, rng.randint(1, 5))
             dt = rng.choice(['float64', 'object', 'M8[D]', 'float64'])
             series = []
+            lead_empty_s = 0
+            if rng.random() < 0.1:
+                k, lead_empty_s = rng.choice([3, 4]), rng.choice([2, 2, 3])
+                ctx.tally('workload', 'overlay_leading_empties')
             for i in range(k):
                 labs = rng.sample(base, rng.randint(1, len(base))) + rng.sample([x for x in _ROWS if x not in base], rng.randint(0, 1))
                 rng.shuffle(labs)
+                if i < lead_empty_s:
+                    labs = []
                 d = dt if rng.random() < 0.8 else rng.choice(['int64', '<U5'])
                 series.append({'labels': labs, 'dtype': d, 'values': [_tame(V.element(d, rng)) for _ in labs]})
             case['series'] = series
@@ -426,7 +473,7 @@ def _check_frame_overlay(case, ctx):
     descs = case['frames']
     frames = [_build_frame(d)[0] for d in descs]
     union = case['union']
-    klass = {'op': 'frame_overlay', 'n': len(descs), 'union': union,
+    klass = {'op': 'frame_overlay', 'n': len(descs), 'union': union, 'zero_row_input': any(not d['rows'] for d in descs),
              'empty_intersection': (not union) and (not set.intersection(*[set(d['rows']) for d in descs]) or not set.intersection(*[set(d['cols']) for d in descs]))}
     ctx.evaluation(repr(case), len(descs) >= 2)
     try:
